@@ -1040,15 +1040,23 @@ class YAMLPath:
 
         Returns:  (str) `value` with all `symbols` escaped
         """
-        escaped: str = value
-        for symbol in symbols:
-            replace_term: str = "\\{}".format(symbol)
-            oparts: List[str] = str(escaped).split(replace_term)
-            eparts: List[str] = []
-            for opart in oparts:
-                eparts.append(opart.replace(symbol, replace_term))
-            escaped = replace_term.join(eparts)
-        return escaped
+        # One pass, left to right:  a backslash and the character it escapes
+        # are taken together, lest an escaped backslash be mistaken for the
+        # escape of the symbol which follows it (a\\ b is not a\ b).
+        text: str = str(value)
+        escaped: List[str] = []
+        idx: int = 0
+        while idx < len(text):
+            char: str = text[idx]
+            if char == "\\" and idx + 1 < len(text):
+                escaped.append(text[idx:idx + 2])
+                idx += 2
+                continue
+            if char in symbols:
+                escaped.append("\\")
+            escaped.append(char)
+            idx += 1
+        return "".join(escaped)
 
     @staticmethod
     def escape_path_section(section: str, pathsep: PathSeparators) -> str:
